@@ -454,6 +454,30 @@ def gen_ops(cat, rng, tier):
             for _ in range(k):
                 toks += group_for([out], rng.choice(['one-nil', 'one', 'one', 'one-zero', 'list']), used)
             add('seq', ['c09.seq', '1', out, str(k)] + toks, used)
+    # directed: a SINGLE bare value as the whole sequence / the whole Pair.Return, for every declared type x every supplied type the
+    # property demands delivery for (same, boxed — incl. slices, arrays, maps whose ELEMENTS would also fit the declared type —, stand-in):
+    # "arrives unaltered" must hold for Returns(v) and Matches(Pair{Return: v}) exactly as for Return(v)
+    for out in names:
+        if icx(out):
+            continue
+        for sup in sups:
+            if icx(sup) or is_anyslice(sup) or classify(cat, out, sup) not in ('same', 'boxed', 'standin'):
+                continue
+            container = cat.types[sup]['kind'] in ('slice', 'arr', 'map')
+            if not (container or sup == out or rng.chance(1, 6) or tier == 'thorough'):
+                continue
+            for mode in (sup_modes(cat, out, sup, rng) if container else ['rand']):
+                if mode not in sup_modes(cat, out, sup, rng):
+                    mode = 'zero'
+                b = box(cat, vg, sup, mode)
+                if container and mode == 'rand':
+                    b = [sup, 'r' + str(rng.choice([0, 1, 2, 3, 4, 5]))] if cat.types[sup]['kind'] != 'arr' else b     # non-empty: 1-3 elements
+                lanes = ['c09.seq', 'c09.whenseq', 'c09.matches'] if container else [rng.choice(['c09.seq', 'c09.whenseq', 'c09.matches'])]
+                for lane in lanes:
+                    if lane == 'c09.matches':
+                        add('matches', [lane, '1', out, 'one'] + b, [out, sup])
+                    else:
+                        add(lane[4:], [lane, '1', out, '1', 'one'] + b, [out, sup])
     for mname, outs in cat.multis:
         for _ in range(12 * reps):
             used = list(outs)
@@ -596,6 +620,7 @@ def gen_ops(cat, rng, tier):
 # ------------------------------------------------------------------ probes
 
 PROBE_TEST = 'TestVerifC09'
+PROBE_TIMEOUT = 300      # seconds per probe process; two attempts at most => a reproduced hang is reported after <= 10 min
 LANES_ARG = ('c09.tv', 'c09.isz', 'c09.i2v')
 LANES_MOCKER = ('c09.ret', 'c09.eval', 'c09.when', 'c09.matches', 'c09.seq', 'c09.in', 'c09.when2', 'c09.whenv', 'c09.whenseq', 'c09.whenand', 'c09.meth')
 _bins = None
@@ -646,10 +671,11 @@ def execute(ops, tag='c09'):
         mine = [i for i, op in enumerate(ops) if op.split()[0] in lanes]
         outp = os.path.join(C.BUILD, f'{tag}.{ptag}.impl')
         for attempt in (1, 2):
-            # typical wall time is 1-3 s; the timeout is generous (>= 100x) and a failed run is repeated ONCE:
+            # typical wall time is 1-3 s (thorough ~10 s); the timeout is generous (>= 30x) yet bounded, so a hang ends in a verdict within
+            # minutes (the test binary kills itself at -test.timeout; the first unobserved op is then the culprit); a failed run is repeated ONCE:
             # a crash that reproduces is an observation, a hiccup that does not is not
             try:
-                rc, log = C.run_probe(bins[ptag], PROBE_TEST, ops_path, outp, env=scrub, timeout=1800)
+                rc, log = C.run_probe(bins[ptag], PROBE_TEST, ops_path, outp, env=scrub, timeout=PROBE_TIMEOUT)
             except Exception as e:      # timeout of the whole process
                 rc, log = -1, f'probe did not finish: {e}'
             got = C.read_indexed(outp, len(ops))
@@ -663,7 +689,7 @@ def execute(ops, tag='c09'):
             # reproduced: a crash inside patched code / reflect kills the process: the first op without an observation is the culprit
             first = next((i for i in mine if raw[i] is None), None)
             if first is not None:
-                raw[first] = 'crash'
+                raw[first] = 'crash'       # crash or reproduced hang of the process while running this operation
             C.log(f'probe {ptag} exited rc={rc} twice; first unobserved op index {first}\n{log[-1500:]}')
         elif mine and any(raw[i] is None for i in mine):
             n = sum(1 for i in mine if raw[i] is None)
